@@ -147,9 +147,10 @@ H2_VARIANTS: tuple[dict[str, typing.Any], ...] = (
 
 
 class _Policy:
-    def __init__(self, var: dict[str, typing.Any], rst_after: int | None) -> None:
+    def __init__(self, var: dict[str, typing.Any], rst_after: int | None, code: int = 2) -> None:
         self.var = var
         self.rst_after = rst_after
+        self.code = code
 
     def on_request(self, srv: H2Server, sid: int) -> None:
         v = self.var
@@ -165,7 +166,7 @@ class _Policy:
             pos += n
         for f in frames[: self.rst_after]:
             f()
-        srv.conn.reset_stream(sid, error_code=2)
+        srv.conn.reset_stream(sid, error_code=self.code)
 
 
 @harness(
@@ -173,17 +174,17 @@ class _Policy:
     quick=[{"flavour": fl, "mode": md} for fl in ("sync", "async") for md in ("cut1", "one", "trunc", "rst")],
     thorough=[{"flavour": fl, "mode": "cut2", "_pre": f"v == {v}"} for fl in ("sync", "async") for v in range(4)]
     + [{"flavour": fl, "mode": md} for fl in ("sync", "async") for md in ("cut1", "one", "trunc", "rst")],
-    example=dict(v=0, c1=20, c2=0, t=0, r=0),
+    example=dict(v=0, c1=20, c2=0, t=0, r=0, e=0),
     require=("complete", "body-delivered"),
     timeout={"quick": 300, "thorough": 1500},
-    symbolic="response variant (4: DATA in several frames, duplicate headers, 204, long header); cut positions anywhere in the server's byte stream (inside the 9-byte frame header, HPACK block, SETTINGS); truncation point; RST_STREAM after r frames",
+    symbolic="response variant (4: DATA in several frames, duplicate headers, 204, long header); cut positions anywhere in the server's byte stream (inside the 9-byte frame header, HPACK block, SETTINGS); truncation point; RST_STREAM after r frames with an error code from {INTERNAL_ERROR, NO_ERROR, CANCEL}",
     bounds="quick: every single cut, one byte per read, every truncation point, every reset point; thorough: every pair of cuts",
     outside="CONTINUATION frames, padded frames, trailers",
     stubs=("h2 native on both sides; the server side of the h2 library produces the frames",),
 )
-def h2_segmentation(v: int, c1: int, c2: int, t: int, r: int) -> None:
+def h2_segmentation(v: int, c1: int, c2: int, t: int, r: int, e: int) -> None:
     """
-    pre: 0 <= v <= 3
+    pre: 0 <= v <= 3 and 0 <= e <= 2
     pre: 0 <= c1 <= 200 and 0 <= c2 <= 200 and 0 <= t <= 200 and 0 <= r <= 4
     post: _
     """
@@ -193,6 +194,9 @@ def h2_segmentation(v: int, c1: int, c2: int, t: int, r: int) -> None:
     cuts: typing.Any = None
     trunc: int | None = None
     rst: int | None = None
+    if mode != "rst" and e:
+        return
+    code = (2, 0, 8)[ladder(e, 0, 2)]
     if mode == "one":
         if c1 or c2 or t or r:
             return
@@ -209,11 +213,11 @@ def h2_segmentation(v: int, c1: int, c2: int, t: int, r: int) -> None:
         if t or r or (mode == "cut1" and c2) or (mode == "cut2" and not c1 < c2):
             return
         cuts = [ladder(c1, 0, LIM)] + ([ladder(c2, 0, LIM)] if mode == "cut2" else [])
-    with concrete(vi, trunc, rst, *(cuts if isinstance(cuts, list) else [])):
-        _h2(shard("flavour", "sync") == "async", vi, cuts, trunc, rst)
+    with concrete(vi, trunc, rst, code, *(cuts if isinstance(cuts, list) else [])):
+        _h2(shard("flavour", "sync") == "async", vi, cuts, trunc, rst, code)
 
 
-def _h2(is_async: bool, vi: int, cuts: typing.Any, trunc: int | None, rst: int | None) -> None:
+def _h2(is_async: bool, vi: int, cuts: typing.Any, trunc: int | None, rst: int | None, code: int = 2) -> None:
     var = H2_VARIANTS[vi]
     nframes = 1 + len(var["frames"]) + 1
     if rst is not None and rst >= nframes:
@@ -223,7 +227,7 @@ def _h2(is_async: bool, vi: int, cuts: typing.Any, trunc: int | None, rst: int |
     wrappers: list[TruncatingPeer] = []
 
     def serve(net: Net, sock: typing.Any) -> typing.Any:
-        s = H2Server(policy=_Policy(var, rst))
+        s = H2Server(policy=_Policy(var, rst, code))
         servers.append(s)
         w = TruncatingPeer(s, trunc)
         wrappers.append(w)
@@ -264,6 +268,6 @@ def _h2(is_async: bool, vi: int, cuts: typing.Any, trunc: int | None, rst: int |
         if got_body is not None:
             whole = servers and not truncated
             P.check(got_body == var["body"] and (rst is None), "cut-short-is-an-error",
-                    sig + (":reset-silently-short" if rst is not None else ":silently-short"))
+                    sig + (f":reset({code})-silently-short" if rst is not None else ":silently-short"))
         if failed is not None:
             P.check(failed.documented() or "h2." in failed.kind(), "error-raised", lambda: sig + f":{failed.kind()}")
